@@ -98,7 +98,8 @@ def oracle(inp):
     worst = max(inp["values"])
     inp4 = dict(inp, points=inp["points"] + lies, values=inp["values"] + [worst] * len(lies), noise=inp["noise"] + [1e-12] * len(lies))
     rm4, rv4, _, cond4 = gpgen.reference_posterior(inp4)
-    t4 = 1e-14 * cond4 * scale + 1e-9 * scale + tol_m
+    ex4, dk4 = gpgen.reference_posterior.extra, gpgen.kernel_entry_error(inp4)   # the same justified bound as tol_m, for the extended data set
+    t4 = 1e-14 * cond4 * (alpha * ex4["a_l1"] + float(numpy.abs(rm4).max()) + scale) + 4 * dk4 * ex4["a_l1"] + 1e-9 * scale + tol_m
     if numpy.abs(gp.compute_mean_of_points(xs) - rm4).max() > t4:
       return fail("after append_lie_data the mean is not the posterior of the extended data", gp.compute_mean_of_points(xs).tolist(), rm4.tolist())
   return None
@@ -113,6 +114,11 @@ def gen_input(rng):
     inp["perm"] = perm
   if rng.random() < 0.3:
     inp["weights"] = [rng.uniform(0.1, 0.9), rng.uniform(0.1, 0.9)]
+    style = rng.random()
+    if style < 0.3:       # any weights: a difference of two models, a zero weight, tiny weights
+      inp["weights"][rng.randrange(2)] = rng.choice([-0.4, -1.0, 0.0, 1e-15, -1e-15, 3.0])
+    elif style < 0.4:
+      inp["weights"] = [rng.choice([-2.0, 1e-16]), rng.choice([-0.3, 1e-20])]
     inp["values2"] = [rng.uniform(-1, 1) for _ in range(n)]
   if rng.random() < 0.3 and inp.get("tikhonov") is None:
     dim = len(inp["points"][0])
